@@ -361,22 +361,39 @@ func (h *c02h) apply(s *c02state, o c02op, st *report.Stats) (ns *c02state, viol
 		if o.Content == "X" {
 			cols = "event_trigger_registered_event"
 		}
-		want := map[string]byte{"A": 0xa1, "B": 0xb2, "X": 0xe5}[o.Content]
+		if o.Content == "XY" {
+			cols = "event_trigger_registered_event"
+		}
+		want := map[string]byte{"A": 0xa1, "B": 0xb2, "X": 0xe5, "XY": 0xe5}[o.Content]
 		names := n.Pool.DB().Columns(cols)
 		ci := map[string]int{}
 		for i, c := range names {
 			ci[c] = i
 		}
+		var id2 []byte
 		for _, r := range n.Pool.DB().Rows(cols) {
 			if r[ci["identity_prefix"]].([]byte)[0] == want && r[ci["eon"]].(int64) == c02Set {
 				id = r[ci["identity"]].([]byte)
 			}
+			if o.Content == "XY" && r[ci["identity_prefix"]].([]byte)[0] == 0xe6 && r[ci["eon"]].(int64) == c02Set {
+				id2 = r[ci["identity"]].([]byte)
+			}
 		}
-		if id == nil {
+		if id == nil || (o.Content == "XY" && id2 == nil) {
 			return nil, ""
 		}
 		ids := []identitypreimage.IdentityPreimage{id}
-		msg := &p2pmsg.DecryptionKeys{InstanceId: kpx.InstanceID, Eon: c02Set, Keys: []*p2pmsg.Key{{IdentityPreimage: id, Key: h.keys.Key(id).Marshal()}},
+		keyList := []*p2pmsg.Key{{IdentityPreimage: id, Key: h.keys.Key(id).Marshal()}}
+		if id2 != nil {
+			// one keys message releasing both event-trigger identities (sorted)
+			ids = append(ids, id2)
+			sort.Slice(ids, func(i, j int) bool { return bytes.Compare(ids[i], ids[j]) < 0 })
+			keyList = nil
+			for _, x := range ids {
+				keyList = append(keyList, &p2pmsg.Key{IdentityPreimage: x, Key: h.keys.Key(x).Marshal()})
+			}
+		}
+		msg := &p2pmsg.DecryptionKeys{InstanceId: kpx.InstanceID, Eon: c02Set, Keys: keyList,
 			Extra: &p2pmsg.DecryptionKeys_Service{Service: &p2pmsg.ShutterServiceDecryptionKeysExtra{SignerIndices: []uint64{1, 2},
 				Signature: [][]byte{kpx.SignService(51, c02Set, ids), kpx.SignService(52, c02Set, ids)}}}}
 		if m.EonState != "success" && m.EonState != "restarted-success" {
@@ -389,7 +406,9 @@ func (h *c02h) apply(s *c02state, o c02op, st *report.Stats) (ns *c02state, viol
 		if d.Verdict != 0 || d.Err != nil {
 			return ns, fmt.Sprintf("honest keys message for a registered identity not processed (%s, %v)", d.VerdictString(), d.Err)
 		}
-		m.Decrypted[string(id)] = true
+		for _, x := range ids {
+			m.Decrypted[string(x)] = true
+		}
 		ns.db, ns.chain = n.Pool.DB(), s.chain
 		st.Class("keys released for " + o.Content)
 		return ns, ""
@@ -573,7 +592,7 @@ func c02alphabet() []c02op {
 	for _, c := range []string{"start", "success", "fail"} {
 		ops = append(ops, c02op{Kind: "eon", Dt: 0, Content: c})
 	}
-	for _, c := range []string{"A", "B", "X"} {
+	for _, c := range []string{"A", "B", "X", "XY"} {
 		ops = append(ops, c02op{Kind: "release", Dt: 0, Content: c})
 	}
 	return append(ops, c02op{Kind: "restart", Dt: 0, Content: ""})
@@ -595,7 +614,7 @@ func c02seeds() [][]c02op {
 func c02() *report.Check {
 	return &report.Check{
 		Level: "model_checking",
-		Rule:  "explicit-state BFS from five scripted seed states over {next block with timestamp delta in {+5, 0, -3} and content in {nothing, registration A (release time between blocks), registration B (release time equal to a block time), registration E (release time already past, matters below the activation block), registration for a set the keyper is not in, registrations with release times 2^63 and 2^64-1, event-trigger registration (topic, value bound and a dynamic value; near-miss logs incl. a dynamic value truncated by the end of the data) expiring three blocks later, a second registration with the same definition expiring one block later, blocks the keyper does not process (so that the next one syncs a range of several blocks), matching log, logs missing on the topic / just above the bound / above 2^64 with low bits inside the bound}, eon start / success / failure, key release for A / B / the trigger identity, restart}; every block processed by the real processNewBlock with the real syncers on a fake chain, every emitted trigger consumed by the real KeyShareHandler through the service middleware; monitor from the statement on every identity of every trigger and of every published shares message. Classes = kinds of step and numbers of triggers / shares",
+		Rule:  "explicit-state BFS from five scripted seed states over {next block with timestamp delta in {+5, 0, -3} and content in {nothing, registration A (release time between blocks), registration B (release time equal to a block time), registration E (release time already past, matters below the activation block), registration for a set the keyper is not in, registrations with release times 2^63 and 2^64-1, event-trigger registration (topic, value bound and a dynamic value; near-miss logs incl. a dynamic value truncated by the end of the data) expiring three blocks later, a second registration with the same definition expiring one block later, blocks the keyper does not process (so that the next one syncs a range of several blocks), matching log, logs missing on the topic / just above the bound / above 2^64 with low bits inside the bound}, eon start / success / failure, key release for A / B / the trigger identity / both trigger identities in one keys message, restart}; every block processed by the real processNewBlock with the real syncers on a fake chain, every emitted trigger consumed by the real KeyShareHandler through the service middleware; monitor from the statement on every identity of every trigger and of every published shares message. Classes = kinds of step and numbers of triggers / shares",
 		Assumptions: []string{
 			"the identity of a registration is looked up in the keyper's own event tables (their correctness is C15/C16's subject)",
 			"safety only: that an eligible identity is eventually triggered is not demanded",
